@@ -198,6 +198,78 @@ async fn run(sc: Value) {
                     }
                 }
             }
+            "store_query" => {
+                // rows into the models collection of the engine's store, then one query through the public query API
+                use acts::query::{Cond, Expr, Query};
+                let coll = acts::verif::models(&engine);
+                for r in st["rows"].as_array().unwrap_or(&vec![]) {
+                    let m: acts::data::Model = serde_json::from_value(r.clone()).expect("model row");
+                    let _ = coll.create(&m);
+                }
+                let mut q = Query::new();
+                for c in st["query"]["conds"].as_array().unwrap_or(&vec![]) {
+                    let mut cond = if c["type"] == "or" { Cond::or() } else { Cond::and() };
+                    for e in c["exprs"].as_array().unwrap_or(&vec![]) {
+                        let k = e["key"].as_str().unwrap();
+                        let v = e["value"].clone();
+                        let ex = match e["op"].as_str().unwrap() {
+                            "EQ" => Expr::eq(k, v),
+                            "NE" => Expr::ne(k, v),
+                            "LT" => Expr::lt(k, v),
+                            "LE" => Expr::le(k, v),
+                            "GT" => Expr::gt(k, v),
+                            _ => Expr::ge(k, v),
+                        };
+                        cond = cond.push(ex);
+                    }
+                    q = q.push(cond);
+                }
+                for o in st["query"]["order"].as_array().unwrap_or(&vec![]) {
+                    q = q.push_order(o[0].as_str().unwrap(), o[1].as_bool().unwrap_or(false));
+                }
+                if let Some(off) = st["query"]["offset"].as_u64() {
+                    q = q.set_offset(off as usize);
+                }
+                if let Some(l) = st["query"]["limit"].as_u64() {
+                    q = q.set_limit(l as usize);
+                }
+                match coll.query(&q) {
+                    Ok(page) => results.push(json!({"op": "store_query", "ok": true, "ids": page.rows.iter().map(|m| m.id.clone()).collect::<Vec<_>>(),
+                        "count": page.count, "page_num": page.page_num, "page_count": page.page_count, "page_size": page.page_size})),
+                    Err(e) => results.push(json!({"op": "store_query", "ok": false, "err": e.to_string()})),
+                }
+            }
+            "store_roundtrip" => {
+                let ty = st["type"].as_str().unwrap_or("");
+                let rec = st["record"].clone();
+                let id = rec["id"].as_str().unwrap_or("").to_string();
+                macro_rules! rt {
+                    ($coll:expr, $t:ty) => {{
+                        let c = $coll;
+                        let v: $t = serde_json::from_value(rec.clone()).expect("record");
+                        let created = c.create(&v).is_ok();
+                        let found = c.find(&id).ok().map(|x| serde_json::to_value(&x).unwrap());
+                        let upd: Option<$t> = st.get("update").and_then(|u| serde_json::from_value(u.clone()).ok());
+                        let mut found_upd = None;
+                        if let Some(u) = upd {
+                            let _ = c.update(&u);
+                            found_upd = c.find(&id).ok().map(|x| serde_json::to_value(&x).unwrap());
+                        }
+                        let _ = c.delete(&id);
+                        let after_delete = c.find(&id).is_ok();
+                        results.push(json!({"op": "store_roundtrip", "created": created, "found": found, "found_after_update": found_upd, "present_after_delete": after_delete}));
+                    }};
+                }
+                match ty {
+                    "Model" => rt!(acts::verif::models(&engine), acts::data::Model),
+                    "Proc" => rt!(acts::verif::procs(&engine), acts::data::Proc),
+                    "Task" => rt!(acts::verif::tasks(&engine), acts::data::Task),
+                    "Message" => rt!(acts::verif::messages(&engine), acts::data::Message),
+                    "Package" => rt!(acts::verif::packages(&engine), acts::data::Package),
+                    "Event" => rt!(acts::verif::events(&engine), acts::data::Event),
+                    _ => {}
+                }
+            }
             "tick" => {
                 if let Some(off) = st["clock_offset"].as_i64() {
                     acts::verif::set_clock_offset(off);
